@@ -52,6 +52,23 @@ def _get_uses_of(node: ast.AST, scope: ast.AST, source: str) -> Iterable[ast.Nam
             # The name is a local variable of this function
             blacklisted_names.update(core.walk(funcdef, ast.Name))
 
+    # A class body that binds the name itself refers to its own binding (its methods do not)
+    for classdef in core.walk(scope, ast.ClassDef):
+        if classdef is node or node in core.walk(classdef, type(node)):
+            continue
+        bound_in_class_body = any(
+            child.name == name
+            for child in classdef.body
+            if isinstance(child, (ast.FunctionDef, ast.AsyncFunctionDef, ast.ClassDef))
+        ) or any(target.id == name for target in parsing.iter_assignments(classdef))
+        if bound_in_class_body:
+            method_names = {
+                child
+                for funcdef in core.walk(classdef, (ast.FunctionDef, ast.AsyncFunctionDef, ast.Lambda))
+                for child in core.walk(funcdef, ast.Name)
+            }
+            blacklisted_names.update(set(core.walk(classdef, ast.Name)) - method_names)
+
     augass_candidates = {
         target
         for augass in core.walk(scope, ast.AugAssign)
